@@ -60,6 +60,13 @@ pub fn run(env: &Env, run: &Run) -> (Stats, Coverage) {
         }
         for a in alias_chars(c) {
             visit(env, &from_cps(&[0x61, x, a as u32, 0x62]), st);
+            // a space and its aliases (and the aliases of ASCII space) far apart in a long label
+            if env.ud16.gc(x) == "Zs" || env.ud16.gc(a as u32) == "Zs" {
+                for s in long_pair_strings(c, a) {
+                    visit(env, &s, st);
+                    visit(env, &format!("b{}b", s), st);
+                }
+            }
         }
     }));
 
